@@ -102,7 +102,10 @@ Slots == << [t |-> I32b, x |-> XLit(VInt(12))], [t |-> Str13, x |-> XLit(CStr(2,
             [t |-> TFloat("Float64", 5, 11), x |-> XLit(VFloat(9))], [t |-> TBool, x |-> XLit(VBool(TRUE))],
             [t |-> TTs("f1"), x |-> XLit(VTs(0))], [t |-> TList(I32b, Unset, 2), x |-> XList(<<XLit(VInt(7)), XLit(VInt(12))>>)],
             [t |-> TMap(I32b), x |-> XMap("k1" :> XLit(VInt(10)))], [t |-> TNull(Str13), x |-> XNull],
-            [t |-> TRef("A"), x |-> XLit(CStr(3, TRUE, 1))], [t |-> TNull(TRef("L")), x |-> XRef("other")] >>
+            [t |-> TRef("A"), x |-> XLit(CStr(3, TRUE, 1))], [t |-> TNull(TRef("L")), x |-> XRef("other")],
+            \* a map with a null value, a list with a null item
+            [t |-> TMap(TNull(I32b)), x |-> XMap(("k1" :> XLit(VInt(10))) @@ ("k2" :> XNull))],
+            [t |-> TList(TNull(TRef("L")), Unset, Unset), x |-> XList(<<XRef("default"), XNull>>)] >>
 ESchema(i) ==
     LET X == Slots[i].t IN
     ("A" :> DAlias("nsb", Str13, "")) @@
